@@ -110,7 +110,19 @@ def run(ctx):
         # ---- resume a failed invocation (fresh vs resumed)
         if failed and t % 2 == 0 and res["builddir"]:
             cfg2 = dict(cfg, steps=[(a, b, c, 0) for a, b, c, _ in cfg["steps"]])
+            # every other resume names the step that failed with -s: whatever that is taken to mean, a step
+            # that ran keeps a record of its run and a skip record never names a log
+            failed_sync = [s_[0] for s_ in cfg["steps"] if not s_[1] and s_[3] != 0 and s_[0] in started]
+            if t % 4 == 0 and failed_sync:
+                cfg2 = dict(cfg2, cmdline_skip=list(cfg2["cmdline_skip"]) + [failed_sync[0]], skip=list(cfg2["skip"]) + [failed_sync[0]])
             res2 = cr.run(cfg2, detach=False, resume_dir=res["builddir"], root=res["root"], keep_root=True)
+            ran_ever = set(started) | set(nm for k, nm, _, _ in res2["events"] if k == "start")
+            for r in res2["rows"]:
+                if r["skip"] == 1 and (r["log"] or r["name"] in ran_ever):
+                    ctx.violation("after resuming%s: the record of step %s is a skip record %s" % (
+                        " with -s %s" % failed_sync[0] if cfg2["cmdline_skip"] != cfg["cmdline_skip"] else "", r["name"],
+                        "naming the log %s" % r["log"] if r["log"] else "although the step ran"), dict(cfg=cfg2, rows=res2["rows"], first_run_rows=res["rows"]))
+                    break
             started2 = [nm for k, nm, _, _ in res2["events"] if k == "start"]
             # the resumed run appends to the same probe/hook logs: look at the part after the first run
             ev2 = res2["events"][len(res["events"]):]
@@ -121,6 +133,25 @@ def run(ctx):
             if len(set(logs2)) != len(logs2):
                 ctx.violation("resumed invocation reused a log file name", dict(rows=res2["rows"]))
             kinds["resumed"] = kinds.get("resumed", 0) + 1
+    # ---- the same on a fixed history: step two fails, the invocation is resumed with -s two
+    for t in range(ctx.n(1, 6)):
+        e2 = rng.choice([1, 3, 7])
+        fcfg = dict(steps=[("one", False, 0, 0), ("two", False, 0, e2), ("three", bool(t % 2), 0, 0)], skip=[], cmdline_skip=[], ncpu=2)
+        r1 = cr.run(fcfg)
+        if not r1["builddir"]:
+            continue
+        fcfg2 = dict(fcfg, steps=[("one", False, 0, 0), ("two", False, 0, 0), ("three", bool(t % 2), 0, 0)], skip=["two"], cmdline_skip=["two"])
+        r2 = cr.run(fcfg2, resume_dir=r1["builddir"], root=r1["root"], keep_root=True)
+        kinds["resumed-with-s"] = kinds.get("resumed-with-s", 0) + 1
+        ran = set(nm for k, nm, _, _ in r2["events"] if k == "start")
+        for r in r2["rows"]:
+            if r["skip"] == 1 and (r["log"] or r["name"] in ran):
+                ctx.violation("canvas -r DIR -s two after step two failed with exit %d: the record of step %s is a skip record %s" % (
+                    e2, r["name"], "naming the log %s" % r["log"] if r["log"] else "although the step ran"), dict(rows=r2["rows"], first_run_rows=r1["rows"]))
+                break
+        rows2 = {r["name"]: r for r in r2["rows"]}
+        if "two" in ran and "two" in rows2 and rows2["two"]["skip"] == 0 and rows2["two"]["exit"] not in (0, e2):
+            ctx.violation("resumed step two has exit %s on record" % rows2["two"]["exit"], dict(rows=r2["rows"]))
     # ---- a second invocation while the first one runs
     for t in range(ctx.n(4, 40)):
         root = os.path.join(ctx.scratch, "second%d" % t)
